@@ -38,18 +38,20 @@ type Program struct {
 	ModFuncs []*ssa.Function // functions (incl. anonymous) declared in module packages, sorted by name
 	cg       *callgraph.Graph
 	noRet    map[*ssa.Function]bool
-	Ignored  []string // files ignored by build constraints in module packages
+	Inline   inlineReport // helpers expanded before analysis (inline.go)
+	Ignored  []string     // files ignored by build constraints in module packages
 	LoadS    float64
 	Files    int
 }
 
 type LoadOpts struct {
-	Root    string
-	Tags    string
-	Env     []string
-	Overlay map[string][]byte
-	Deps    bool // LoadAllSyntax
-	Pattern []string
+	Root     string
+	Tags     string
+	Env      []string
+	Overlay  map[string][]byte
+	Deps     bool // LoadAllSyntax
+	NoInline bool
+	Pattern  []string
 }
 
 func loadOverlayFile(path string) (map[string][]byte, error) {
@@ -89,25 +91,97 @@ func Load(o LoadOpts) (*Program, error) {
 	if len(pat) == 0 {
 		pat = []string{"./..."}
 	}
-	pkgs, err := packages.Load(cfg, pat...)
-	if err != nil {
-		return nil, fmt.Errorf("packages.Load: %w", err)
-	}
 	p := &Program{Root: o.Root, Tags: o.Tags, ByPath: map[string]*packages.Package{}, SSAPkgs: map[string]*ssa.Package{}}
-	var errs []string
-	n := 0
-	packages.Visit(pkgs, nil, func(pk *packages.Package) {
-		if strings.HasPrefix(pk.PkgPath, modPath) {
-			for _, e := range pk.Errors {
-				errs = append(errs, pk.PkgPath+": "+e.Error())
+	loadOnce := func(ov map[string][]byte) ([]*packages.Package, int, error) {
+		c2 := *cfg
+		c2.Overlay = ov
+		pkgs, err := packages.Load(&c2, pat...)
+		if err != nil {
+			return nil, 0, fmt.Errorf("packages.Load: %w", err)
+		}
+		var errs []string
+		n := 0
+		packages.Visit(pkgs, nil, func(pk *packages.Package) {
+			if strings.HasPrefix(pk.PkgPath, modPath) {
+				for _, e := range pk.Errors {
+					errs = append(errs, pk.PkgPath+": "+e.Error())
+				}
+			}
+		})
+		for _, pk := range pkgs {
+			if strings.HasPrefix(pk.PkgPath, modPath) {
+				n++
 			}
 		}
-	})
+		if len(errs) > 0 {
+			sort.Strings(errs)
+			if len(errs) > 10 {
+				errs = errs[:10]
+			}
+			return nil, 0, fmt.Errorf("type/load errors in module packages:\n  %s", strings.Join(errs, "\n  "))
+		}
+		return pkgs, n, nil
+	}
+	pkgs, n, err := loadOnce(o.Overlay)
+	if err != nil {
+		return nil, err
+	}
+	// helpers that do not exist in the pinned tree are expanded at their call sites (inline.go); a rewritten tree that
+	// does not load is abandoned
+	if frozen, ferr := frozenNames(); ferr == nil && !o.NoInline {
+		ov := map[string][]byte{}
+		for k, v := range o.Overlay {
+			ov[k] = v
+		}
+		for round := 0; round < 3; round++ {
+			add, rep := inlineNewHelpers(pkgs, frozen, ov, round)
+			p.Inline.Skipped = append(p.Inline.Skipped, rep.Skipped...)
+			if rep.Fallback != "" {
+				p.Inline.Fallback = rep.Fallback
+			}
+			if len(add) == 0 {
+				break
+			}
+			ov2 := map[string][]byte{}
+			for k, v := range ov {
+				ov2[k] = v
+			}
+			for k, v := range add {
+				ov2[k] = v
+			}
+			pk2, n2, err2 := loadOnce(ov2)
+			if err2 != nil {
+				p.Inline.Fallback = "the tree with helpers expanded does not load: " + clip(err2.Error(), 600)
+				if os.Getenv("KVET_INLINE_DEBUG") != "" {
+					for k, v := range add {
+						os.WriteFile("/tmp/kvet-inline-"+strings.ReplaceAll(rel(o.Root, k), "/", "_"), v, 0o644)
+					}
+				}
+				break
+			}
+			pkgs, n, ov = pk2, n2, ov2
+			p.Inline.Helpers = append(p.Inline.Helpers, rep.Helpers...)
+			p.Inline.Sites += rep.Sites
+			if p.Inline.LineMap == nil {
+				p.Inline.LineMap = map[string][]int{}
+			}
+			for f, lm := range rep.LineMap {
+				if prev, ok := p.Inline.LineMap[f]; ok {
+					// compose: new line -> line of previous round -> original line
+					for i, l := range lm {
+						if l-1 < len(prev) && l >= 1 {
+							lm[i] = prev[l-1]
+						}
+					}
+				}
+				p.Inline.LineMap[f] = lm
+			}
+		}
+	}
 	for _, pk := range pkgs {
 		if !strings.HasPrefix(pk.PkgPath, modPath) {
 			continue
 		}
-		n++
 		p.ByPath[pk.PkgPath] = pk
 		p.Files += len(pk.CompiledGoFiles)
 		for _, f := range pk.IgnoredFiles {
@@ -115,13 +189,6 @@ func Load(o LoadOpts) (*Program, error) {
 				p.Ignored = append(p.Ignored, rel(o.Root, f))
 			}
 		}
-	}
-	if len(errs) > 0 {
-		sort.Strings(errs)
-		if len(errs) > 10 {
-			errs = errs[:10]
-		}
-		return nil, fmt.Errorf("type/load errors in module packages:\n  %s", strings.Join(errs, "\n  "))
 	}
 	if len(pat) == 1 && pat[0] == "./..." && n < 130 {
 		return nil, fmt.Errorf("only %d module packages loaded (expected >= 130)", n)
@@ -193,6 +260,10 @@ func (p *Program) Pos(pos token.Pos) string {
 		return "?"
 	}
 	ps := p.Fset.Position(pos)
+	if lm, ok := p.Inline.LineMap[ps.Filename]; ok && ps.Line >= 1 && ps.Line <= len(lm) {
+		// the file was analysed with helpers expanded: report the line of the source as written
+		return fmt.Sprintf("%s:%d", rel(p.Root, ps.Filename), lm[ps.Line-1])
+	}
 	return fmt.Sprintf("%s:%d", rel(p.Root, ps.Filename), ps.Line)
 }
 
